@@ -81,7 +81,7 @@ RULE = (
     "fields in any order and spread from an input, variants, lists, maps, unit, scalars, property access on input "
     "datums, list indexing); a change output `source - a - b - fees` associated three different ways; optional "
     "mint/burn, validity (arbitrary integer expressions, so partly out of range), signers, metadata, reference "
-    "input; testnet (2/3) or mainnet; each program printed plainly and with random white space and comments; a third of the declared names (environment keys, parameters) spelled with capitals; a sixth of the asset amounts written as one of the small shapes of + and - over constructors of one class (X(a) - X(b), X(a) - X(b) + Ada(q), Ada(q) + (X(a) - X(b)), X(a) - X(b) + Y(c), X(a) + Y(c) - X(b), X(a) - (X(b) - X(c))). "
+    "input; testnet (2/3) or mainnet; each program printed plainly and with random white space and comments; a third of the declared names (environment keys, parameters) spelled with capitals; a sixth of the asset amounts written as one of the small shapes of + and - over constructors of one class an optional output in a third of the programs (a token and no lovelace, lovelace only, nothing at all); a treasury donation and script witnesses now and then; a variant type whose third case is named Default; (X(a) - X(b), X(a) - X(b) + Ada(q), Ada(q) + (X(a) - X(b)), X(a) - X(b) + Y(c), X(a) + Y(c) - X(b), X(a) - (X(b) - X(c))). "
     "Non-trivial = every case; distinct = distinct (tree, world)"
 )
 ASSUMPTIONS = ["one UTxO per party, so input selection has one admissible answer; the UTxOs it picked are read from the constant IR handed to the compiler",
